@@ -27,12 +27,13 @@ LEVEL_TEXT = (
     'indices in its fixtures) are excluded on every path, each result name is '
     'filed in exactly one group, and the metrics are the documented formulas. '
     'Metric values themselves are not decided.'
+    ' Validation simulation with stand-in interpreters: mean per signature of metric(target, reference), one group per tensor.'
 )
 LEVEL_NOTE = (
     'Trusted: sa def-use engine; numpy reductions named as such. Not decided: '
     'interpreter tensor contents, float rounding.'
 )
-TECHNIQUE = 'def-use origin (family coherence) + CFG partition rule + formula identity (static)'
+TECHNIQUE = 'def-use origin (family coherence) + CFG partition rule + formula identity + validation simulation with stand-in interpreters (abstract interpretation) (static)'
 
 MV = 'model_validator'
 VU = 'utils.validation_utils'
